@@ -147,6 +147,21 @@ class Session:
         r.ext = g.ext
         return r
 
+    def types(self):
+        """the .type every graph reports (label names), and for a grammar the .type of every rule's right-hand side"""
+        out = {}
+        for h, o in self.objs.items():
+            if o is None:
+                continue
+            try:
+                if isinstance(o, self.F.Graph):
+                    out[h] = [l.name for l in o.type]
+                else:
+                    out[h] = [[l.name for l in r.rhs.type] for r in o.all_rules()]
+            except Exception:
+                out[h] = ['<raised>']
+        return out
+
     def eq_matrix(self):
         parts = {h: o for h, o in self.objs.items() if o is not None}
         if 'g2' in self.objs:
@@ -188,6 +203,9 @@ class Session:
                     g.ext = [self.node(n) for n in c['x']]
                 elif op == 'copy':
                     self.objs[other] = g.copy()
+                    self.sharers.discard(other)
+                elif op == 'from_graph':
+                    self.objs[other] = F.FactorGraph.from_graph(g)
                     self.sharers.discard(other)
                 elif op == 'new_hrg':
                     st = c['start']
